@@ -56,6 +56,12 @@ def gen_cases(rng, tier):
         bad = rng.pick([0, 0, 0, 1, 2]) if fmt != 'excel' else 0
         cases.append({'kind': 'dump', 'pkg': rows_enc_pkg(pkg), 'format': fmt, 'zip': z, 'mode': mode if not bad else 'fresh', 'bad': bad,
                       'counters': rng.randrange(len(COUNTERS)), 'hashpath': rng.chance(0.3), 'pretty': rng.chance(0.5)})
+    # systematically: every counters configuration in both text formats, path and zip
+    rows_ = [{'id': j, 't': 'é☃', 'n': 1.5} for j in range(3)]
+    for ci in range(len(COUNTERS)):
+        for fmt in ('csv', 'json'):
+            cases.append({'kind': 'dump', 'pkg': rows_enc_pkg([rows_, rows_[:1]]), 'format': fmt, 'zip': (ci + len(fmt)) % 2 == 0, 'mode': 'fresh',
+                          'bad': 0, 'counters': ci, 'hashpath': False, 'pretty': False})
     # systematically: add_filehash_to_path with resources whose files are byte-identical (they share the hash directory),
     # dumped afresh and again into the same directory
     rows = [{'id': j, 't': 'x', 'n': None} for j in range(2)]
